@@ -53,6 +53,10 @@ def run(prog, R, tier="quick", only_rule=None):
     c16d(prog, R)
     c16e(prog, R)
     c16f(prog, R)
+    # shared clause: nothing is unlinked/marked before the version without it is published, so a failure before the
+    # publication leaves the old state complete (DESIGN.md C16 "shares C05.c")
+    from rules.props import c05
+    c05.c05c(prog, R, rid="C16.g")
 
 
 DEQUE_MUT = ("push_back", "pop_back", "pop_front", "push_front", "clear", "insert", "remove", "truncate", "drain",
